@@ -1,4 +1,5 @@
 import SlotVerif.Model.Parse
+import SlotVerif.Proofs.ParseRT
 /-!
 # C18 — Printing and parsing round-trip; parsing never panics
 
@@ -7,7 +8,14 @@ The model's parser is total by construction (every token access is a `match`), w
 checked accesses of the fixed code; that the *code* does not panic is established per run by the
 correspondence check (outcome classes `ok|err:<variant>|panic` must agree).  Proved here, for
 every signature, every input text and every slot table: **whatever the parser accepts is well
-formed** — each node has exactly as many children as its operator takes.
+formed** — each node has exactly as many children as its operator takes — and **the parser inverts
+the printer at the token level** (`parse_printed_tokens`, `parsePat_printed`): for every well-formed
+pattern `p` (`RT.WFP`: substitution patterns nested arbitrarily, operators with slots, binders and
+children, payload leaves that print unambiguously; excluded: named variants with payload fields —
+open finding F10), parsing the token sequence of its printed form returns exactly `p`, with the
+fuel the implementation's recursion depth corresponds to never running out.  That the *characters*
+printed by `Display` tokenize to that sequence (`$`-names through the C17 table, identifier
+characters) is established per run by the correspondence check.
 -/
 namespace SV.Parse.C18
 open SV SV.Parse
@@ -153,5 +161,39 @@ example : (match parsePattern appSig 40 [.lparen, .ident "app", .pvar "a"] with
 #guard (match parsePat appSig "(app (var $x) ?f)[?a := ?b]".toList {} with | .ok (p, _) => wf p | .error _ => false)
 #guard (match parsePat appSig "(app ?a".toList {} with | .error .parseState => true | _ => false)
 #guard (match parsePat appSig "".toList {} with | .error .parseState => true | _ => false)
+
+
+/-- **the parser inverts the printer on tokens**: the tokens of the printed form of a well-formed pattern parse
+back to the pattern, with nothing left over -/
+theorem parse_printed_tokens (sig : Sig) (p : Pat) (h : RT.WFP sig p) :
+    parsePattern sig (4 * (RT.toksOf sig p).length + 4) (RT.toksOf sig p) = .ok (p, []) := by
+  have := RT.parsesBack_gen h [] [] (4 * (RT.toksOf sig p).length + 4) (by simp [RT.NoLB]) (by simp)
+    (by simp only [RT.brToks, List.length_nil]; omega)
+  simpa [RT.brToks, RT.rebuild] using this
+
+/-- `Pattern::parse` on a text that tokenizes to the printed tokens of `p` returns `p` -/
+theorem parsePat_printed (sig : Sig) (p : Pat) (h : RT.WFP sig p) (s : List Char) (t t' : Slot.Tab)
+    (htok : tokenize (s.length + 1) s t = .ok (RT.toksOf sig p, t')) : parsePat sig s t = .ok (p, t') := by
+  unfold parsePat
+  rw [htok]
+  simp only
+  rw [parse_printed_tokens sig p h]
+
+/-- non-vacuity: `(app ?f (var $x))[?a := ?b]` over a two-operator signature is well formed, so the hypothesis
+of the round-trip theorem is satisfiable (binary operator, slot argument, substitution bracket) -/
+example : RT.WFP appSig
+    (.subst (.enode ⟨0, [.app RT.nullApp, .app RT.nullApp]⟩ [.pvar "f", .enode ⟨1, [.slot 4]⟩ []]) (.pvar "a") (.pvar "b")) := by
+  refine .subst (.named (vr := ⟨some "app", [.app, .app]⟩) (name := "app") rfl rfl ?_ ?_ ?_ ?_ rfl ?_) (.pvar _) (.pvar _)
+  · exact .cons (.app _) (.cons (.app _) .nil)
+  · intro j hj; simp at hj
+  · intro k hk; simp at hk; rcases hk with rfl | rfl <;> rfl
+  · intro a ha; simp [Node.appOcc, Field.appOcc] at ha; rcases ha with rfl | rfl <;> rfl
+  · refine .cons (.pvar _) (.cons (.named (vr := ⟨some "var", [.slot]⟩) (name := "var") rfl rfl ?_ ?_ ?_ ?_ rfl .nil) .nil)
+    · exact .cons (.slot _) .nil
+    · intro j hj
+      have : j = 0 := by simp at hj; omega
+      subst this; decide
+    · intro k hk; simp at hk; subst hk; rfl
+    · intro a ha; simp [Node.appOcc, Field.appOcc] at ha
 
 end SV.Parse.C18
